@@ -2,6 +2,7 @@
 import NB.Wire
 import NB.Model.AddSub
 import NB.Model.AsmParams
+import NB.Model.Scalar
 namespace NB.Drv.C01
 open NB NB.Wire
 
@@ -58,6 +59,13 @@ def handle (op : String) (args : List String) : Option (String × String) :=
       | .ok r => "some " ++ showBigInt r
       | .error p => "panic " ++ p.toString
     pure (m, "some " ++ showBigInt (BigInt.ofInt (a.val - b.val)))
+  -- scalar on the left: `u32/u64/u128 - BigUint` (computed inside the big operand's buffer through `sub2rev`)
+  | "u.sub_from_u32", [sc, b] | "u.sub_from_u64", [sc, b] => do
+    let sc ← parseNat sc; let b ← parseLimbs b
+    pure (su (dSubRev .u64 sc b), su (oSubU sc (val b)))
+  | "u.sub_from_u128", [sc, b] => do
+    let sc ← parseNat sc; let b ← parseLimbs b
+    pure (su (dSubRev .u128 sc b), su (oSubU sc (val b)))
   -- internal hooks: raw slices
   | "raw.add2", [a, b] => do
     let a ← parseLimbs a; let b ← parseLimbs b
